@@ -314,6 +314,9 @@ def run(ctx):
     _r, _e, q3, _s, _m = eval_slurm_states(ctx, 5, False, fail="squeue")
     r3.check(not q3, gcon + "::sacct-guard-on-failure", "with accounting disabled sacct is not run when the queue query fails either",
              f"with accounting disabled and the queue query failing the accounting database is queried ({len(q3)} sacct call(s)): the switch no longer governs which commands run", gjs.where)
+    from .shared import rule_factory_default
+    rule_factory_default(ctx, r3, "gwf.backends.slurm:create_backend", "accounting_enabled", True,
+                         "with the default configuration jobs that left the queue after failing are never looked up, so failures show as not submitted")
     from .shared import rule_config_switch
     rule_config_switch(ctx, r3, "backend.slurm.accounting_enabled", "the Slurm backend receives its accounting switch (create_backend(**namespace))", via_namespace="backend.slurm")
 
